@@ -39,7 +39,7 @@ def cmd_import(src, sid, prop, needs):
         demo = open(os.path.join(d, 'demo.py')).read()
         # demos were written against the agent's own worktree path: point them at the scratch copy
         import re
-        demo_local = re.sub(r'/var/tmp/mut[23456789]?-[a-z0-9]+', wt, demo)
+        demo_local = re.sub(r'/var/tmp/mut[0-9]*-[a-z0-9]+', wt, demo)
         with open(os.path.join(wt, '_demo.py'), 'w') as f:
             f.write(demo_local)
         rc0, out0 = sh([PY, '_demo.py'], cwd=wt, env=env, timeout=600)
